@@ -446,6 +446,14 @@ func Exec(c Case) (res core.Result) {
 		default:
 			if o, taken := m.owner[r.ip]; taken {
 				res.Viol = core.Violate("C02/address-bound-twice", "step %d: new client %s was given %s, which is bound to client %s", i, c.Clients[st.Client], u32ip(r.ip), c.Clients[o])
+				if c.Mode == "C03" {
+					// that is C02's business; C03's is what the database written so far says
+					// about it: it must still restore (one binding per address)
+					m.bound[st.Client] = r.ip
+					if v := c.crashPoint(db, m, i, leaseDur); v != nil {
+						res.Viol = v
+					}
+				}
 				return
 			}
 			m.bound[st.Client] = r.ip
